@@ -65,7 +65,23 @@ def daqmx_plan(rec, typemap=None):
     return {p: (b, (sorted(tys[p]) or [None])[0]) for b, p in enumerate(sorted(tys))}
 
 
-def to_fd(rec, seed=0, typemap=None, flip_be=None, daqmx=None):
+MANY = 300
+
+
+def many_props(seed):
+    """MANY further properties (all TDMS property types in turn, one of them a string of more than 255 bytes) for the
+    first object the file lists: more than 255 of a kind"""
+    out = []
+    for j in range(MANY):
+        pty = PROP_TYPES[j % len(PROP_TYPES)]
+        val = enc.value(pty, "prop:many", j, seed, width=j % 9)
+        if pty == "String" and j == 1:
+            val = val + "long" * 80
+        out.append(["many%03d" % j, pty, val])
+    return out
+
+
+def to_fd(rec, seed=0, typemap=None, flip_be=None, daqmx=None, manyprops=False):
     """GEN record -> encoder file description.  flip_be: None | "le" | "be" | "swap" (C15 variants)."""
     tm = typemap or {}
     h = case_hash(rec)
@@ -92,6 +108,8 @@ def to_fd(rec, seed=0, typemap=None, flip_be=None, daqmx=None):
             listed.append(ent)
         objs = [{"p": o["p"], "has": bool(o["has"]), "n": o["n"], "sv": o.get("sv", 0),
                  "ty": (None if o["ty"] == "none" else tm.get(o["ty"], o["ty"]))} for o in s["layout"]]
+        if manyprops and not segs and listed:
+            listed[0]["props"] = many_props(seed) + listed[0]["props"]
         segs.append({"meta": bool(s["meta"]), "newlist": bool(s["newList"]), "be": be, "il": bool(s["il"]),
                      "listed": listed, "objs": objs, "k": s["k"]})
         if daqmx:
@@ -124,7 +142,7 @@ def _as_dict(x):
     return {} if isinstance(x, list) else x
 
 
-def compare_view(rec, e, view, seed, typemap=None, mode="eager", daqmx=None):
+def compare_view(rec, e, view, seed, typemap=None, mode="eager", daqmx=None, manyprops=False):
     """Compare the projection of what the library returned with the specification's view.
     Returns list of (field, expected, observed) differences."""
     tm = typemap or {}
@@ -175,6 +193,11 @@ def compare_view(rec, e, view, seed, typemap=None, mode="eager", daqmx=None):
     if extra:
         diffs.append(("invented-channels", [], sorted(extra)))
     ep = expected_props(rec, seed)
+    if manyprops and rec["file"] and rec["file"][0]["listed"]:
+        first = rec["file"][0]["listed"][0]["p"]
+        extra = {nm: proj.expected_prop_canon(pty, val) for nm, pty, val in many_props(seed)}
+        extra.update(ep.get(first, {}))
+        ep[first] = extra
     for p in v["order"]:
         if view["props"].get(p) != ep.get(p, {}):
             diffs.append(("props:" + p, ep.get(p, {}), view["props"].get(p)))
@@ -265,6 +288,23 @@ def widen(rec, factor):
     return out
 
 
+def repeated(rec, m):
+    """The file written m times over, back to back (F F ... F): when F's first segment restarts the object list and
+    states every index in full, the copies add up - every channel m times as long, same order, types and properties.
+    More than 255 segments without asking TLC for a behaviour that long.  None if F does not start that way."""
+    import copy
+    f = rec["file"]
+    if rec["status"] != "ok" or not f or not f[0]["meta"] or not f[0]["newList"]:
+        return None
+    if any(e["kind"] == "same" for e in f[0]["listed"]):
+        return None
+    out = copy.deepcopy(rec)
+    out["file"] = [copy.deepcopy(s) for _ in range(m) for s in f]
+    v = out["view"]
+    v["len"] = {c: n * m for c, n in _as_dict(v["len"]).items()}
+    return out
+
+
 def replay_segments_case(case):
     """worker: case = {"rec": GEN record, "seed": int, "modes": [...], "rot": int, "be_variants": [...]}"""
     from nptdms import TdmsFile
@@ -275,7 +315,10 @@ def replay_segments_case(case):
     if case.get("widen") and not any(s_["il"] and o["has"] and o["ty"] == "String" for s_ in rec["file"] for o in s_["layout"]):
         # (a lone string channel in an "interleaved" segment is a legal file; 260 of them are not)
         rec = widen(rec, case["widen"])
+    if case.get("repeat"):
+        rec = repeated(rec, case["repeat"]) or rec
     tm = rotation(case.get("rot", 0)) if case.get("rot") else None
+    mp = bool(case.get("manyprops"))
     fails = []
     n = 0
     keys = []
@@ -284,7 +327,7 @@ def replay_segments_case(case):
     if plan:
         variants.append((None, plan))
     for flip, dq in variants:
-        fd = to_fd(rec, seed, tm, flip_be=flip, daqmx=dq)
+        fd = to_fd(rec, seed, tm, flip_be=flip, daqmx=dq, manyprops=mp)
         e = enc.encode(fd, seed)
         res = read_modes(e.data, case["modes"], TdmsFile, daqmx=bool(dq))
         for mode, view in res.items():
@@ -301,7 +344,7 @@ def replay_segments_case(case):
                 fails.append((sig, {"case": rec, "seed": seed, "rot": case.get("rot", 0), "flip": flip, "mode": mode,
                                     "hex": e.data.hex(), "exception": view["exception"]}))
                 continue
-            diffs = compare_view(rec, e, view, seed, tm, mode, daqmx=dq)
+            diffs = compare_view(rec, e, view, seed, tm, mode, daqmx=dq, manyprops=mp)
             if dq:
                 diffs = [d for d in diffs if not (d[0].startswith("dtype") and d[2] is None)]
             if mode == "meta":
